@@ -44,6 +44,13 @@ def run(chk):
             a, b = [strip_cvref(t) for t in F.param_types(f)]
             if a == b:
                 ops_by_type.setdefault(a, {}).setdefault(op, f)
+        # the same operators written as const member functions `bool operator op(const T& right) const`
+        for f in F.fns.values():
+            op = f.get("op")
+            if op in OPS and f.get("kind") == "method" and len(f["params"]) == 1 and "body" in f and not f.get("static") and "parent" in f:
+                a = strip_cvref(F.T(f["parent"]) or "")
+                if a and strip_cvref(F.param_types(f)[0]) == a:
+                    ops_by_type.setdefault(a, {}).setdefault(op, f)
         for tname in comparable_types(F):
             have = ops_by_type.get(tname, {})
             rloc = short(F.records[tname]["loc"]) if tname in F.records else ""
@@ -61,7 +68,10 @@ def run(chk):
                     rv, rs = slots(E, tname, "right")
                     la, ra = E.new_loc(lv, "arg"), E.new_loc(rv, "arg")
                     pts = F.param_types(f)
-                    res = E.call(f["id"], None, [la if facts.is_ref(pts[0]) else lv, ra if facts.is_ref(pts[1]) else rv])
+                    if f.get("kind") == "method":
+                        res = E.call(f["id"], la, [ra if facts.is_ref(pts[0]) else rv])
+                    else:
+                        res = E.call(f["id"], None, [la if facts.is_ref(pts[0]) else lv, ra if facts.is_ref(pts[1]) else rv])
                     res = E.rv(res)
                     if E.unknown_calls:
                         chk.inconclusive("R2", inst, "calls unmodelled %s" % E.unknown_calls[:3], short(f["loc"]))
